@@ -15,6 +15,11 @@ pub struct Case {
     pub program: Program,
     /// descriptor perturbations: (free blob index, length delta)
     pub perturb: Vec<(u8, i32)>,
+    /// page damage (checksums not re-sealed) applied before the blob read sequence `order`
+    #[serde(default)]
+    pub damage: Vec<crate::c17::Damage>,
+    #[serde(default)]
+    pub order: Vec<u8>,
 }
 
 fn blob_program(s: &mut Src) -> Program {
@@ -46,7 +51,7 @@ fn fixed_lengths(t: Tier) -> Vec<Case> {
             }
             ops.push(Op::Blob(BlobSpec { len, seed: len as u64 * 2 + 1, chunk: 0 }));
             ops.push(Op::Blob(BlobSpec { len: 5, seed: 99, chunk: 0 }));
-            out.push(Case { program: Program { guid: "{len-sweep}".into(), ops, end: End::Finalize }, perturb: vec![] });
+            out.push(Case { program: Program { guid: "{len-sweep}".into(), ops, end: End::Finalize }, perturb: vec![], damage: vec![], order: vec![] });
         }
     }
     out
@@ -60,7 +65,9 @@ impl Check for C06 {
          {0..5} u {k*1020 + d, d around header sizes} u random up to 5 pages, contents pseudo random with a distinct prefix per blob; plus an \
          enumerated sweep of every blob length 0..=2050 at two positions (thorough: 0..=4100 at four positions relative to a page end). Oracle: E57Reader::blob returns \
          Ok(len) and exactly the written bytes for every descriptor, each image's blob/mask descriptors lead to that image's data; for perturbed \
-         descriptors Blob::new(offset, len') the result is Err or exactly len' bytes following the header. Non-trivial: blob spanning >= 2 pages, \
+         descriptors Blob::new(offset, len') the result is Err or exactly len' bytes following the header; on files with damaged pages (1 in 4 \
+         cases) every blob read of a generated sequence on one reader fails or returns exactly the written bytes; 1 in 4 blobs is fed from a \
+         source that returns short reads. Non-trivial: blob spanning >= 2 pages, \
          or ending within 4 bytes of a page end, or length 0, or perturbed descriptor."
             .into()
     }
@@ -77,7 +84,14 @@ impl Check for C06 {
         let program = blob_program(s);
         let k = s.below(3);
         let perturb = (0..k).map(|_| (s.byte(), *s.pick(&[-1i32, 1, 2, 3, 4, 15, 16, 17, 19, 20, 32, 1020, 100000, -5]))).collect();
-        Case { program, perturb }
+        let (damage, order) = if s.chance(1, 4) {
+            let d = (0..1 + s.below(2)).map(|_| crate::c17::Damage::Unsealed { page: s.byte(), byte: s.u16(), bit: s.byte() }).collect();
+            let o = (0..2 + s.below(8)).map(|_| s.byte()).collect();
+            (d, o)
+        } else {
+            (vec![], vec![])
+        };
+        Case { program, perturb, damage, order }
     }
     fn run(case: &Case) -> Verdict {
         let mut v = Verdict::new();
@@ -163,6 +177,39 @@ impl Check for C06 {
                 if !exp.images.is_empty() {
                     v.label("images");
                 }
+            }
+        }
+        // damaged pages: on ONE reader, every blob read in a generated order (with repeats) fails or returns exactly the written bytes
+        if !case.damage.is_empty() && !tr.blobs.is_empty() {
+            v.nt("blob_reads_on_a_damaged_file");
+            let bad = crate::c17::damaged(&bytes, &case.damage);
+            let r = guard(|| -> Result<(), String> {
+                let mut rd = match E57Reader::new(MemDev::with_data(bad.clone())) {
+                    Ok(r) => r,
+                    Err(_) => return Ok(()),
+                };
+                for (step, w) in case.order.iter().enumerate() {
+                    let k = *w as usize % tr.blobs.len();
+                    let (off, len) = tr.blobs[k];
+                    let mut out = Vec::new();
+                    if let Ok(n) = rd.blob(&Blob::new(off, len), &mut out) {
+                        if n != len || out != free[k].bytes() {
+                            return Err(format!("damaged file, read {step} of the sequence {:?}: blob {k} returned Ok({n}) with bytes that were never written to it", case.order));
+                        }
+                    }
+                }
+                Ok(())
+            });
+            match r {
+                Err(p) => {
+                    v.fail(format!("reader panicked on a damaged file: {p}"));
+                    return v;
+                }
+                Ok(Err(e)) => {
+                    v.fail(e);
+                    return v;
+                }
+                Ok(Ok(())) => {}
             }
         }
         // perturbed descriptors
